@@ -13,6 +13,7 @@ import (
 	_ "verif/mc/checks/c12"
 	_ "verif/mc/checks/fmt3"
 	_ "verif/mc/checks/c13"
+	_ "verif/mc/checks/c16"
 	_ "verif/mc/checks/c17"
 	_ "verif/mc/checks/c19"
 	"verif/mc/engine"
